@@ -93,6 +93,8 @@ class Record:
                     if curg is not None:
                         curg["exc"] = e.get("exc")
                     curg = None
+                elif k == "jac":
+                    strays.append(e)
                 elif k in ("obj", "con", "cb"):
                     if curg is None:
                         strays.append(e)
